@@ -146,6 +146,7 @@ def build_ops():
         ("copy_with_new_str(str with SGR)", lambda v: [v.copy_with_new_str("\x1b[34mz\x1b[39m")]),
         ("setitem(str with SGR)", lambda v: [v.setitem(0, "\x1b[34mz\x1b[39m")]),
         ("ljust/rjust", lambda v: [v.ljust(len(v) + 2, "."), v.rjust(len(v) + 3)]),
+        ("ljust/rjust with a wide and a zero-width fill character", lambda v: [v.ljust(len(v) + 2, "\uff25"), v.rjust(len(v) + 2, "\u0300"), v.ljust(len(v) + 1, "\u30fb")]),
         ("v.join([str pieces with non-SGR escape sequences])", lambda v: [v.join([v, "\x1b[?25lp", "\x1bMq"]), v.join(["\x1b]0;t\x07r", "\x9b1ms", "\x1b[31"])]),
     ]
     B = [
